@@ -91,11 +91,11 @@ PROPS = {
         'pairs (all AND written / some AND nodes juxtaposed) of printed random trees, and pairs over arbitrary token sequences with two adjacent terminals; non-trivial = pair accepted',
         '', []),
     'C08': P(
-        ['C08_quoted_value_is_one_token', 'C08_quoted_value_tree', 'C08_quoted_value_inline_sql', 'C08_quoted_value_parameter', 'C08_sql_constant_decodes_to_the_value'],
+        ['C08_quoted_value_is_one_token', 'C08_quoted_value_tree', 'C08_quoted_value_inline_sql', 'C08_quoted_value_parameter', 'C08_sql_constant_decodes_to_the_value', 'C08_escaped_value_is_one_token', 'C08_escaped_value_tree', 'C08_escaped_spelling_loses_only_its_backslashes', 'C08_escaped_spelling_adds_no_wildcard'],
         [('corpus', 0), ('quote', 6000), ('scale-values', 0)],
         [('corpus', 0), ('quote', 100000), ('scale-values', 0)],
         PARSE + SQL,
-        'quoting clause proved link by link for all texts w without a double quote: bytes -> tokens (lexer), tokens -> tree (parser loop + Validate: EQUALS(column, literal w)), tree -> inline SQL text (column = constant with doubled quotes) and -> parameter list ([w]), SQL constant -> value (PostgreSQL scanner model reads it back as w). Not proved: that the string-level doubling of Render and the byte-level one of the scanner lemma are the same function (both are checked per case), and the escaping clause, which is decided by C08_check per case (K7).',
+        'quoting clause proved link by link for all texts w without a double quote: bytes -> tokens (lexer), tokens -> tree (parser loop + Validate: EQUALS(column, literal w)), tree -> inline SQL text (column = constant with doubled quotes) and -> parameter list ([w]), SQL constant -> value (PostgreSQL scanner model reads it back as w). Not proved: that the string-level doubling of Render and the byte-level one of the scanner lemma are the same function (both are checked per case), Escaping clause, ASCII: the escaped spelling (a backslash before every byte that is not a letter, digit or underscore) of any text is one Literal token carrying exactly those bytes; a Literal token whose text loses its backslashes to w, holds no star or question mark and does not read as a number gives EQUALS(column, literal w), w plain; the escaped spelling of a w without backslash, star and question mark meets those premises (with them it is known finding K7). Non-ASCII texts in the escaping clause are decided by C08_check per case.',
         'random texts over an alphabet of operators, keywords, digits, wildcards, slashes, backslashes, whitespace, quotes, non-ASCII; quoted and escaped spellings',
         '', ['oracle facts: double quote, colon and the four whitespace runes are not letters or digits']),
     'C09': P(
